@@ -126,7 +126,9 @@ def judge_history(v, scn, h, hout):
             if rep is None:
                 continue
             if "<TIMEOUT>" in rep:
-                v.bad("connection-not-closed", beh, "client (bytes %s, %s) got no EOF from the server: %r" % (o["bytes"][:8], beh, rep[:80]))
+                # wall-clock observation: inconclusive unless it is systematic (judged per batch)
+                v.count("client_read_timeouts")
+                v.stats.setdefault("_timeouts", []).append("client (bytes %s, %s) got no EOF from the server within 20 s: %r" % (o["bytes"][:8], beh, rep[:80]))
                 continue
             if rep == "":
                 complete = any(b in (0, 10) for b in o["bytes"][:32]) or len(o["bytes"]) == 32
@@ -208,12 +210,14 @@ def judge(case, results):
             ov = judge_history(v, scn, h, hout)
             v.count("histories")
             v.count("ops", len(hout["ops"]))
-            if hout.get("dtor_ms", 0) > 4000:
-                v.bad("slow-shutdown", scn["kind"], "~Stats took %d ms (kind %s)" % (hout["dtor_ms"], scn["kind"]))
+            v.stats["max_dtor_ms"] = max(v.stats.get("max_dtor_ms", 0), hout.get("dtor_ms", 0))
             if ov:
                 nt.add(core.scn_hash(h))
         if not out.get("done") and not ck:
             v.bad("batch-incomplete", scn["kind"], "driver stopped after %d of %d histories\n%s" % (len(out.get("histories", [])), len(scn["histories"]), r["err"][-1500:]))
+    touts = v.stats.pop("_timeouts", [])
+    if len(touts) > 3:
+        v.bad("connection-not-closed", "", "%d clients never saw their connection closed; first: %s" % (len(touts), touts[0]))
     v.nontrivial = len(nt) >= 2
     v.sig = "batch" + str(len(case.scns))
     v.stats["_distinct"] = len(nt)
